@@ -59,7 +59,10 @@ def run(ctx: core.Ctx):
         X = np.array([r[0] for r in rows])
         V = np.array([r[1] for r in rows])
         for form, arg in (("array", X), ("2d-array", X.reshape(3, -1) if len(X) % 3 == 0 else X.reshape(1, -1))):
+            keep = arg.copy()
             got = np.asarray(hs[h].hedge(arg), dtype=float)
+            if not np.array_equal(arg, keep):
+                ctx.violation(f"{h}.hedge/argument-mutated", {"hedge": h}, "unchanged", "modified", note="the caller's array was modified in place")
             ctx.count()
             if got.shape != arg.shape or not np.allclose(got.ravel(), V, rtol=0, atol=TOL, equal_nan=True):
                 ctx.violation(f"{h}.hedge/formula/{form}", {"hedge": h}, "table", "differs", note="array call differs from elementwise values")
